@@ -187,16 +187,28 @@ def pickle_identity(repo):
     for n in ast.walk(f.node):
         if isinstance(n, ast.For) and norm(n.iter).endswith(".ISPECS") and isinstance(n.target, ast.Name):
             loop = n
+    tests = None
+    if loop is None:
+        # the same search written as a comprehension / generator: `(h for h in m.ISPECS if <tests>)`
+        for n in ast.walk(f.node):
+            if isinstance(n, ast.comprehension) and norm(n.iter).endswith(".ISPECS") and isinstance(n.target, ast.Name) and n.ifs:
+                loop, tests = n, [norm(t) for t in n.ifs]
     if loop is None:
         raise AnalysisError("R-DUPFMT: ispec.__setstate__ has no lookup loop over <module>.ISPECS")
     h = loop.target.id
-    tests = [norm(n.test) for n in ast.walk(loop) if isinstance(n, ast.If)]
+    if tests is None:
+        tests = [norm(n.test) for n in ast.walk(loop) if isinstance(n, ast.If)]
     txt = " ".join(tests)
     if "%s.format" % h in txt:
         ident.append("format")
     if "%s.hook.__name__" % h in txt:
         ident.append("hookname")
     stored = {n.slice.value for n in ast.walk(g.node) if isinstance(n, ast.Subscript) and isinstance(n.ctx, ast.Store) and isinstance(n.slice, ast.Constant)}
+    for n in ast.walk(g.node):
+        if isinstance(n, ast.Dict):
+            stored |= {k.value for k in n.keys if isinstance(k, ast.Constant)}
+        elif isinstance(n, ast.Call) and isinstance(n.func, ast.Name) and n.func.id == "dict":
+            stored |= {k.arg for k in n.keywords if k.arg}
     return f, g, ident, stored, tests
 
 
